@@ -470,9 +470,10 @@ Definition uri_parse (t : bytes) : option (bytes * option bytes) :=
 Definition uri_path (t : bytes) : option bytes := option_map fst (uri_parse t).
 
 (** the URI kvarn's HTTP/1 reader ([kvarn_async::read::request]: scheme "://" Host-header target) and
-    the in-process harness build for a request target, with the host name "localhost" *)
-Definition localhost_prefix : bytes := B "http://localhost".
-Definition target_uri (t : bytes) : option (bytes * option bytes) := uri_parse (localhost_prefix ++ t).
+    the in-process harness build for a request target: what the client writes into the Host header is part of
+    the text that is parsed, so a Host header "localhost/.." puts "/.." in front of the target's path *)
+Definition uri_of (host_header t : bytes) : option (bytes * option bytes) := uri_parse (B "http://" ++ host_header ++ t).
+Definition target_uri (t : bytes) : option (bytes * option bytes) := uri_of (B "localhost") t.
 
 (** ---------------------------------------------------------------------------
     xval interface *)
